@@ -103,6 +103,7 @@ type Interp struct {
 	feasCache map[string]bool
 	pruneAll  bool
 	deferredFacts []string
+	pools     map[string][]Value
 	trivialN    int
 	harnessFn   map[*ssa.Function]bool
 	stash       map[string]Value
